@@ -2,10 +2,14 @@
 from . import common as C
 from . import kh
 
-RULE = ("diagrams as in C01 plus random braid closures up to 8 (quick) / 11 (thorough) crossings; for each diagram and reduced / "
-        "unreduced: the complex returned by KhComplex::new over Z, F2, F3, Q with numeric (h,t) in {(0,0),(1,0),(0,1),(2,3)} and over "
+RULE = ("diagrams as in C01 plus 6_2, 7_4, 8_19, L6a4 (thorough: also 6_3, 7_7, 8_20, L7n1, 9_42) from the repository's resources "
+        "and random braid closures up to 8 (quick) / 11 (thorough) crossings; for each diagram and reduced / "
+        "unreduced: the complex returned by KhComplex::new over Z, F2, F3, Q with numeric (h,t) in {(0,0),(1,0),(0,1),(2,3)}, over "
+        "Q and F5 with (h,t) in {(2,0),(3,0),(1,1),(0,2)} (units other than +-1 in the elimination) and over "
         "Z[H], Z[T], Z[H,T], F2[H], Q[H] with polynomial parameters is dumped (generator quantum degrees + sparse differentials) "
-        "and run through the Gallina checker (kind cx: shapes, d.d=0, grading when h,t are 0 or the variables); rational rings are "
+        "and run through the Gallina checker (kind cx: shapes, d.d=0, grading when h,t are 0 or the variables); over Q and Q[H] "
+        "every matrix is first multiplied by the least common denominator of its coefficients (a non-zero constant per matrix, "
+        "which changes neither d.d=0 nor homogeneity); rational rings are "
         "additionally checked by the library's own d.d=0 test (kind rc); the Z[H,T] (reduced: Z[H]) complex specialised at integer "
         "points is compared with the homology table of the complex built directly with those parameters (kind sp). "
         "non-trivial = a dump with at least one non-zero differential entry; distinct = distinct case lines")
@@ -23,7 +27,7 @@ def run(ctx):
     corr = C.correspondence(ctx, "c05", nontrivial)
     return C.finish(ctx, "other", obl, corr, RULE, extra_cov=extra,
                     assumptions=["the checker validates each returned complex; that every link yields a complex is sampled",
-                                 "rational coefficients that are not integral are checked by the library's own d.d test only",
+                                 "rational matrices are scaled by their common denominator before the Gallina checker sees them",
                                  "homology of the specialised complex uses the oracle's sparse Smith diagonalisation (KhHomology.smith_loop)"],
                     explain=("Level 'other': per-output validation by a Gallina checker (extracted), with proved meaning of a passing "
                              "verdict and proved evaluation homomorphism; plus exact comparison of the specialised (H,T)-complex's homology "
